@@ -127,7 +127,7 @@ def gen_message(rng, index, timed):
 def random_case(rng, tier):
     program = programs.gen_process_program(rng, PROGRAM_CFG)
     flavour = rng.choice(['quiescent', 'quiescent', 'timed', 'timed', 'bfault', 'subtimeout'])
-    opts = {'comm': True, 'pid': PID}
+    opts = {'comm': True, 'pid': rng.choice([PID, PID, 16, {'__uuid__': 16}, None])}
     if rng.random() < 0.4:
         opts['wrap'] = True  # the process is given plumpy's LoopCommunicator around the transport
     if rng.random() < 0.4:
